@@ -212,10 +212,13 @@ func (s *Sink) Close() error {
 	if vsched.Aborting() {
 		return nil
 	}
-	s.n.fault("SinkClose", s.ID)
+	c := s.n.fault("SinkClose", s.ID)
 	s.Closes++
 	if s.Closes > 1 {
 		return os.ErrClosed
+	}
+	if c != "" {
+		return injErr("close", c) // the descriptor is gone all the same (close(2) semantics): counted as closed
 	}
 	return nil
 }
@@ -376,11 +379,14 @@ func (s *Source) Close() error {
 	if vsched.Aborting() {
 		return nil
 	}
-	s.n.fault("SourceClose", s.ID)
+	c := s.n.fault("SourceClose", s.ID)
 	s.Closes++
 	s.closed = true
 	if s.Closes > 1 {
 		return os.ErrClosed
+	}
+	if c != "" {
+		return injErr("close", c)
 	}
 	return nil
 }
